@@ -265,6 +265,10 @@ def bounded_status(first_only=True):
 
 
 def bounded(chk):
+    nh, fh = status_history_search(4 if chk.tier == "quick" else 5)
+    chk.bounded_result("status_against_the_real_queue_over_histories", nh, nh, True,
+                       "real Application.do_render / do_render_status over a real workq (in-process proxy, JSON round trip): all histories of <= 4 (quick) / 5 (thorough) operations out of 14 (render, pulls, info, finish ok / error / result+error, fetch ok / error, kills, time-outs, dropdead, another writer finishing) starting with a render request: the state reported after every operation is the one the statement defines from the render job",
+                       [fh] if fh else [])
     nf, badf = filename_search(3 if chk.tier == "quick" else 4)
     chk.bounded_result("content_disposition_filenames", nf, nf, True, "all names over a 17-symbol alphabet (delimiters, space, non-ASCII, compatibility characters that NFKD-decompose to delimiters) up to length 3 (quick) / 4 (thorough)",
                        [{"detail": str(badf), "witness": badf, "class": "unsafe-header"}] if badf else [])
@@ -462,3 +466,98 @@ def replay_filenames(model, obligation):
     if bad:
         return True, bad, "unsafe-header"
     return False, {"model": model, "searched": n}, None
+
+
+# ----------------------------------------------------------------------------- bounded: status against the real queue, over histories
+def status_history_search(depth=4):
+    """real nserve.Application.do_render / do_render_status over a real qs.jobs.workq (in-process proxy with a JSON round
+    trip, as rpcclient does): after every operation of every history the reported state is the one the statement defines
+    from the render job itself: finished <=> done without error, failed <=> done with an error, progress otherwise"""
+    import itertools
+    import json
+    import logging
+    import time as _time
+    logging.disable(logging.CRITICAL)
+    from mwlib.core import nserve
+    from qs import jobs, qserve
+    CID, WRITER = "0123456789abcdef", "rl"
+    RENDER, MAKEZIP = f"{CID}:render-{WRITER}", f"{CID}:makezip"
+
+    class Proxy:
+        def __init__(self, wq):
+            class H(qserve.QPlugin):
+                workq = wq
+            self.h = H()
+
+        def __getattr__(self, name):
+            m = getattr(self.h, "rpc_" + name)
+            return lambda **kw: json.loads(json.dumps(m(**json.loads(json.dumps(kw)))))
+
+    ops = ["render", "pull_render", "pull_zip", "info", "finish_ok", "finish_err", "finish_both", "zip_ok", "zip_err", "kill", "kill_zip", "clock", "dropdead", "other_writer_ok"]
+
+    def run(hist):
+        wq = jobs.workq()
+        wiki, worker = Proxy(wq), Proxy(wq)
+        now = [1000.0]
+        real_time = _time.time
+        _time.time = lambda: now[0]
+        try:
+            app = nserve.Application()
+            app.qserve = wiki
+            held = set()
+            for k, op in enumerate(hist):
+                try:
+                    if op == "render":
+                        app.do_render(CID, {"writer": WRITER}, False)
+                    elif op in ("pull_render", "pull_zip"):
+                        ch = "render" if op == "pull_render" else "makezip"
+                        if not any(not j.done for j in wq.channel2q.get(ch, [])):
+                            continue        # a pull that would block: not part of this search
+                        held.add(worker.qpull(channels=[ch])["jobid"])
+                    elif op == "info" and RENDER in held:
+                        worker.qsetinfo(jobid=RENDER, info={"status": "rendering", "progress": 10})
+                    elif op in ("finish_ok", "finish_err", "finish_both") and RENDER in held:
+                        worker.qfinish(jobid=RENDER, result={"url": "http://x/out.pdf", "size": 10, "suggested_filename": "a"} if op != "finish_err" else None,
+                                       error="boom" if op != "finish_ok" else None)
+                    elif op in ("zip_ok", "zip_err") and MAKEZIP in held:
+                        worker.qfinish(jobid=MAKEZIP, result={} if op == "zip_ok" else None, error=None if op == "zip_ok" else "fetch failed")
+                    elif op == "kill":
+                        wiki.qkill(jobids=[RENDER])
+                    elif op == "kill_zip":
+                        wiki.qkill(jobids=[MAKEZIP])
+                    elif op == "clock":
+                        now[0] += 100000.0
+                        wq.handletimeouts()
+                    elif op == "dropdead":
+                        now[0] += 100000.0
+                        wq.dropdead()
+                    elif op == "other_writer_ok":
+                        jid = wiki.qadd(channel="render", jobid=f"{CID}:render-odf", payload={})
+                        j = wq.id2job.get(f"{CID}:render-odf")
+                        if j is not None and not j.done:
+                            wq.finishjob(j.jobid, result={"url": "http://x/other.odt", "size": 1})
+                    else:
+                        continue
+                except KeyError:
+                    continue            # e.g. finishing a job the queue has dropped
+                j = wq.id2job.get(RENDER)
+                want = "progress" if (j is None or not j.done) else ("failed" if j.error else "finished")
+                st = app.do_render_status(CID, {"writer": WRITER})
+                if st.get("state") != want:
+                    snap = None if j is None else {"done": j.done, "error": j.error, "has_result": bool(j.result)}
+                    return f"after {list(hist[:k + 1])}: render job {snap}: reported {st.get('state')!r} ({ {x: st[x] for x in st if x in ('error', 'status')} }), the statement says {want!r}"
+                if want == "finished" and not (st.get("url") and "content_type" in st and "suggested_filename" in st or "url" in st):
+                    return f"after {list(hist[:k + 1])}: finished without a download url"
+            return None
+        finally:
+            _time.time = real_time
+    n = 0
+    for ln in range(1, depth + 1):
+        for hist in itertools.product(ops, repeat=ln):
+            if hist[0] != "render":
+                continue
+            n += 1
+            msg = run(hist)
+            if msg:
+                return n, {"detail": msg, "witness": {"history": list(hist)}, "class": "status-history"}
+    return n, None
